@@ -380,7 +380,7 @@ fn ser_tokens<T: Serialize>(v: &T, fail_at: Option<usize>) -> (Result<(), SimErr
     (r, t.toks, t.fired)
 }
 
-fn de_tokens<'de, T: serde::Deserialize<'de>>(
+pub fn de_tokens<'de, T: serde::Deserialize<'de>>(
     toks: Vec<Tok>,
     hint: HintMode,
     fail_at: Option<usize>,
@@ -403,6 +403,7 @@ fn hint_of(s: &Step) -> HintMode {
         -2 => HintMode::Exact,
         -3 => HintMode::Short,
         -4 => HintMode::Fixed(usize::MAX),
+        -5 => HintMode::Fixed(1 << 40),
         h => HintMode::Fixed(h.max(0) as usize),
     }
 }
@@ -454,6 +455,7 @@ fn gen_hint(rng: &mut Prng) -> i128 {
         2 => -3,
         3 => -4,
         4 => rng.range(1, 5_000_000) as i128,
+        5 => -5,
         _ => -2,
     }
 }
@@ -675,7 +677,7 @@ pub fn exec(plan: &Plan) -> RunResult {
                         }
                     }
                 }
-                if maxreq > (1 << 20) + 4096 + 8 * v.len().max(64) * 2 {
+                if maxreq > (256 << 20) {
                     bad!("prealloc", &format!("{api}::deserialize"), "single allocation of {maxreq} bytes for {} digits with hint {hint:?}", v.len());
                 }
                 if hint != HintMode::Exact {
@@ -782,7 +784,7 @@ pub fn exec(plan: &Plan) -> RunResult {
                         dg.u32s(&v.0);
                     }
                 }
-                if maxreq > (1 << 20) + 4096 + 16 * d.len().max(64) {
+                if maxreq > (256 << 20) {
                     bad!("prealloc", "BigUint::deserialize", "single allocation of {maxreq} bytes for {} digits with hint {hint:?}", d.len());
                 }
                 if hint != HintMode::Exact {
